@@ -78,6 +78,7 @@ class LineFailpoints:
         self.active = False
         self._registered = False
         self._interesting = {}
+        self._with_lines = {}
 
     def _is_library(self, code):
         r = self._interesting.get(code)
@@ -94,11 +95,27 @@ class LineFailpoints:
             return sys.monitoring.DISABLE
         n = self.count
         self.count = n + 1
-        if self.arm_at is not None and n == self.arm_at and not self.fired:
+        if self.arm_at is not None and n == self.arm_at and not self.fired and not self._is_with_line(code, line):
             self.fired = True
             self.fired_at = (code.co_filename.replace(self.prefix, ""), line, code.co_name)
             raise InjectedFault(f"injected fault at library line event #{n} ({self.fired_at[0]}:{line} in {code.co_name})")
         return None
+
+    def _is_with_line(self, code, line):
+        """
+        `with` lines are visited twice: before __enter__ and again for the exit sequence, where an injected
+        exception would skip __exit__ altogether (the CPython async-exception race, not a statement boundary).
+        They are never used as abort points.
+        """
+        key = (code.co_filename, line)
+        r = self._with_lines.get(key)
+        if r is None:
+            import linecache
+
+            text = linecache.getline(code.co_filename, line).strip()
+            r = text.startswith(("with ", "async with "))
+            self._with_lines[key] = r
+        return r
 
     def _ensure(self):
         if not self._registered:
